@@ -46,6 +46,9 @@ def model_name(root, path):
         base = "(Base Pkl)"
     elif parts == ["proposal", "model.pt"]:
         base = "(Base Wt)"
+    elif len(parts) == 4 and parts[:2] == ["proposal", "training"] and parts[2].startswith("block_") \
+            and parts[3] == "model.pt" and parts[2][6:].isdigit():
+        base = f"(Base (Blk {int(parts[2][6:])}))"
     elif len(parts) == 3 and parts[0] == "levels" and parts[1].startswith("level_") and parts[2] == "model.pt" \
             and parts[1][6:].isdigit():
         base = f"(Base (Lvl {int(parts[1][6:])}))"
@@ -533,19 +536,32 @@ def resume_phase(root, kwargs, cont):
             res["weights"] = [digest_state(m.state_dict()) for m in flow.models]
         emit(res)
         if cont:
-            # "sampling can continue from it": a few more iterations of the real loop
+            # "sampling can continue from it": the real loop goes on in the directory the kill left - for the
+            # importance sampler one more level (training + weights save + checkpoint), for the standard sampler
+            # `cont` more iterations (with per-training block directories: enough to train again)
+            was_finished = bool(getattr(ns, "finalised", False))
             try:
                 if hasattr(ns, "_flow_proposal"):
-                    ns.max_iteration = ns.iteration + 3
+                    ns.max_iteration = ns.iteration + (cont if isinstance(cont, int) and cont > 1 else 3)
                     ns.finalised = False
                 else:
                     ns.max_iteration = ns.iteration + 1
                     ns.finalised = False
                 it0 = ns.iteration
+                tc0 = int(getattr(getattr(ns, "_flow_proposal", None), "training_count", 0) or 0)
                 fs.run(plot=False, save=False)
-                emit({"continued": True, "from": int(it0), "to": int(fs.ns.iteration)})
+                on_disk = None
+                try:
+                    with open(os.path.join(root, RESUME_FILE), "rb") as fh:
+                        on_disk = int(pickle.load(fh).iteration)
+                except Exception as e:
+                    on_disk = f"unreadable: {type(e).__name__}"
+                emit({"continued": True, "from": int(it0), "to": int(fs.ns.iteration), "was_finished": was_finished,
+                      "checkpoint_iteration": on_disk,
+                      "trainings": int(getattr(getattr(fs.ns, "_flow_proposal", None), "training_count", 0) or 0) - tc0})
             except BaseException as e:
-                emit({"continued": False, "exc": type(e).__name__, "msg": str(e)[:300]})
+                emit({"continued": False, "exc": type(e).__name__, "msg": str(e)[:300],
+                      "tb": traceback.format_exc()[-600:]})
     return body
 
 
@@ -555,6 +571,20 @@ def base_phase(root, kwargs, spec):
         kw = dict(kwargs)
         kw.update(spec.get("kwargs", {}))
         fs = make_sampler(root, kw)
+        if spec.get("stop_after"):
+            # a run that is still going: stop like a kill right after its N-th checkpoint has completed
+            import nessai.samplers.base as base
+            real = base.safe_file_dump
+            seen = {"n": 0}
+
+            def counted(data, filename, module, save_existing=False):
+                real(data, filename, module, save_existing=save_existing)
+                seen["n"] += 1
+                if seen["n"] >= spec["stop_after"]:
+                    emit({"base_done": True, "iteration": int(data.iteration), "stopped_mid_run": True,
+                          "evals": int(data.model.likelihood_evaluations)})
+                    os._exit(0)
+            base.safe_file_dump = counted
         fs.run(plot=False, save=False)
         emit({"base_done": True, "iteration": int(fs.ns.iteration),
               "evals": int(fs.ns.model.likelihood_evaluations)})
@@ -677,7 +707,7 @@ def main():
     timeout = job.get("timeout", 120)
     for name, spec in job["bases"].items():
         kw = dict(job["kwargs"][spec["sampler"]])
-        kwargs_by_base[name] = kw
+        kwargs_by_base[name] = dict(kw, **spec.get("kwargs", {}))
         st, msgs = in_fork(base_phase(root, kw, spec), timeout * 2)
         if first(msgs, "base_done") is None:
             base_info[name] = {"error": json.dumps(msgs)[-2000:], "status": st}
